@@ -15,7 +15,7 @@ From Low Require Import Lib.MachInt Lib.Bits Lib.BitSeq Lib.Bytes Lib.BitsExtra_
 Import ListNotations.
 Open Scope Z_scope.
 
-Ltac Zify.zify_post_hook ::= Z.div_mod_to_equations.
+Local Ltac Zify.zify_post_hook ::= Z.div_mod_to_equations.
 
 (** * small list facts (not in the 8.16 library under these names) *)
 
